@@ -413,6 +413,31 @@ func genShplonk(g *gen, cn string, c c17Curve) {
 				emit(polys, polys2, pts, n, mut, len(polys)-1, 0, g.nzScalar(r))
 			}
 		}
+		// no-trapdoor forgery when a point belongs to two opening sets (needs γ before the claimed values are fixed): the
+		// point x is shared by exactly two sets, in every position pattern (first / last / only element), 2..4 polynomials
+		for k := 0; k < 3; k++ {
+			np := 2 + g.rng.intn(3)
+			op := make([][]*big.Int, np)
+			opts := make([][]*big.Int, np)
+			for q := range op {
+				op[q] = g.scalars(r, 1+g.rng.intn(5))
+				opts[q] = g.scalars(r, 1+g.rng.intn(3)) // fresh random points: distinct with overwhelming probability
+			}
+			a, b := g.rng.intn(np), g.rng.intn(np-1)
+			if b >= a {
+				b++
+			}
+			ja, jb := g.rng.intn(len(opts[a])), g.rng.intn(len(opts[b]))
+			if k == 0 { // the PLONK shape: S_a = {x, x'} and S_b = {x}
+				opts[a], opts[b] = g.scalars(r, 2), g.scalars(r, 1)
+				ja, jb = 0, 0
+			}
+			opts[b][jb] = opts[a][ja]
+			emit(op, nil, opts, srsFor(op, opts), "overlap", a, ja, g.nzScalar(r))
+			if k == 0 {
+				emit(op, nil, opts, srsFor(op, opts), "overlap", a, ja, big.NewInt(0)) // d = 0: the honest proof
+			}
+		}
 		// neutral substitutions: accepted
 		emit(polys, polys2, pts, n, "cvAdd", 0, 0, big.NewInt(0))
 		emit(polys, polys2, pts, n, "vkG1", 0, 0, big.NewInt(1))
